@@ -125,7 +125,15 @@ fn f64_restriction(sc: &mut ShardCtx, e: &E, ph: f64) -> Result<(), &'static str
             _ => (None, None),
         };
         if let (Some(a), Some(b)) = (base, exp) {
-            let (va, vb) = (f64r::eval_lenient(a, ph).value(), f64r::eval_lenient(b, ph).value());
+            // decided, like the rest of the restriction, on eval_f64's own values: an integral base value is an Integer in
+            // eval_number however it was computed (the reference's value of an approximate base can differ in the last bits
+            // and miss that it is integral)
+            let own = |n: &E| match api::eval(Ev::F64, &grammar::render(n), &Val::F(ph)) {
+                Outcome::Ok(Val::F(v)) => Some(v),
+                _ => None,
+            };
+            sc.evals(2);
+            let (va, vb) = (own(a).or(f64r::eval_lenient(a, ph).value()), own(b).or(f64r::eval_lenient(b, ph).value()));
             if let (Some(x), Some(y)) = (va, vb) {
                 if y < 0.0 && y.fract() == 0.0 && x.fract() == 0.0 {
                     return Err("Integer to a negative Integer power");
